@@ -167,10 +167,58 @@ CONFIGS = {
     'v6-vmsa': {'memory_system_architecture': 'VMSA'},
     'v7-lpae': {'arch_version': 7, 'memory_system_architecture': 'VMSA', 'have_lpae': True},
     'v7-virt': {'arch_version': 7, 'memory_system_architecture': 'VMSA', 'have_lpae': True, 'have_virt_ext': True, 'have_mp_ext': True},
+    # implementation-defined vectors at address 0 / an odd place (SCTLR.VE = 1 uses them for IRQ / FIQ; the reset vector when the configuration says so)
+    'v6-vec': {'impdef_irq_vector': 0, 'impdef_fiq_vector': 0, 'has_imp_def_reset_vector': True, 'impdef_reset_vector': 0x2000},
 }
 CODE_BASES = [0x8000, 0x8000, 0x8000, 0, 0xFFFF0000, 0xFFFFFF00, 0x7FFFFF80]
 DATA = (0x20000, 0x100)
 DATA2 = (0x20100, 0x40)
+
+
+def force_stage2(rng, st):
+    """HCR.VM = 1 with a valid VTCR / VTTBR (Non-secure PL1&0 accesses go through the stage-2 walk; its table is whatever the data device holds, so
+    stage-2 faults - reported with the instruction syndrome of the executing load / store - are the usual outcome)"""
+    st['hcr'] = (st.get('hcr', 0) | 1) & ~(1 << 27)
+    sl0 = rng.getrandbits(1)
+    t0sz = rng.randrange(-2, 8) if sl0 == 0 else rng.randrange(-8, 2)
+    st['vtcr'] = (rng.getrandbits(6) << 8) | (sl0 << 6) | ((1 if t0sz < 0 else 0) << 4) | (t0sz & 15)
+    st['vttbr'] = DATA[0] & ~0xFF
+    st['scr'] = st.get('scr', 0) | 1
+
+
+S2_TABLES = (0x50000, 0x3000)
+
+
+def stage2_map(rng, case):
+    """a valid three-level stage-2 table (VTCR.SL0 = 1, T0SZ = 0: 32-bit IPA space) that identity-maps the pages holding the vectors and the code
+    read/write and gives the data pages a generated fate - unmapped, no access, read-only, access flag clear, or read/write - so that the instruction
+    is fetched and its own data access takes the stage-2 fault (reported to Hyp mode with the load/store instruction syndrome)"""
+    st = case['state']
+    base = S2_TABLES[0]
+    case['mems'].append(list(S2_TABLES))
+    ent = {}
+
+    def page(pa, hap, af=1):
+        return (pa & 0xFFFFF000) | (af << 10) | (3 << 8) | (hap << 6) | (0xF << 2) | 3
+    ent[base] = (base + 0x1000) | 3                       # level 1, entry 0 -> level-2 table
+    ent[base + 0x1000] = (base + 0x2000) | 3              # level 2, entry 0 -> level-3 table (first 2 MiB)
+    code_page = (st['R.PC'] >> 12) & 0x1FF
+    for pg in {0, code_page, (code_page + 1) & 0x1FF, base >> 12, (base >> 12) + 1, (base >> 12) + 2}:
+        ent[base + 0x2000 + 8 * pg] = page(pg << 12, 3)
+    fate = rng.choice(('invalid', 'noaccess', 'readonly', 'af0', 'rw', 'invalid', 'readonly'))
+    for pg in (DATA[0] >> 12, (DATA[0] >> 12) + 1):
+        if pg == code_page:
+            continue
+        if fate != 'invalid':
+            ent[base + 0x2000 + 8 * pg] = page(pg << 12, {'noaccess': 0, 'readonly': 1, 'af0': 3, 'rw': 3}[fate], af=0 if fate == 'af0' else 1)
+    for a, d in sorted(ent.items()):
+        case['poke'].append([a, d.to_bytes(8, 'little').hex()])
+    st['hcr'] = (st.get('hcr', 0) | 1) & ~(1 << 27)
+    st['vtcr'] = (rng.getrandbits(6) << 8) | (1 << 6)
+    st['vttbr'] = base
+    st['scr'] = st.get('scr', 0) | 1
+    st['sctlr'] = st.get('sctlr', 0) & ~1                 # stage 1 off: IPA = VA
+    return fate
 
 
 def step_case(rng, cfgname, thumb, code, mode=None, it=None, e=None, code_base=None, mpu=None, mmu=None, steps=1, hooked=False,
